@@ -6,6 +6,7 @@ ones included — the hand-written model (`Model/Encoding.lean`) takes exactly t
 -/
 import Iso8583.Gen.GuardsEnc
 import Iso8583.Model.Encoding
+import Iso8583.Lemmas.GuardTactics
 
 namespace Iso8583.GuardsEnc
 open Iso8583 Iso8583.Gen.Guards Enc
@@ -24,17 +25,14 @@ theorem decode_nonneg (e : Enc) (data : Bytes) (l : Int) (h : ¬ l < 0) :
   rw [hl] at this
   exact this
 
-/-- a two-condition decoder: negative length, then not enough data -/
+/-- a two-condition decoder: negative length, or not enough data -/
 theorem decode_two (e : Enc) (he : e ≠ .berTag) (data : Bytes) (length : Int)
     (guards : Int → Int → Int → Int → List Bool) (val : Nat → Bytes)
     (hm : ∀ n : Nat, decodeNat e data n = if data.length < n then .err else .ok (val n, n))
-    (hg : ∀ l d : Int, guards l d 0 0 = [decide (l < 0), decide (d < l)] ∨
-                        guards l d 0 0 = [decide (l < 0), decide (l > d)]) :
+    (hany : ∀ l d : Int, (guards l d 0 0).any id = true ↔ (l < 0 ∨ d < l)) :
     decode e data length =
       if (guards length data.length 0 0).any id then .err else .ok (val length.toNat, length.toNat) := by
-  have hany : (guards length data.length 0 0).any id = true ↔ (length < 0 ∨ (data.length : Int) < length) := by
-    rcases hg length data.length with h | h <;> rw [h] <;>
-      simp only [List.any_cons, List.any_nil, id, Bool.or_false, Bool.or_eq_true, decide_eq_true_eq] <;> omega
+  have hany := hany length data.length
   by_cases hneg : length < 0
   · rw [decode_neg e he data length hneg, if_pos (hany.mpr (Or.inl hneg))]
   · rw [decode_nonneg e data length hneg, hm]
@@ -44,13 +42,34 @@ theorem decode_two (e : Enc) (he : e ≠ .berTag) (data : Bytes) (length : Int)
         rcases hany.mp h with x | x <;> omega
       rw [if_neg hl, if_neg this]
 
+theorem ebcdic_iff (l d : Int) : (ebcdic_Decode_guards l d 0 0).any id = true ↔ (l < 0 ∨ d < l) := by
+  unfold ebcdic_Decode_guards; guards_to_prop <;> guards_done
+theorem ebcdic1047_iff (l d : Int) : (ebcdic1047_Decode_guards l d 0 0).any id = true ↔ (l < 0 ∨ d < l) := by
+  unfold ebcdic1047_Decode_guards; guards_to_prop <;> guards_done
+theorem binary_iff (l d : Int) : (binary_Decode_guards l d 0 0).any id = true ↔ (l < 0 ∨ d < l) := by
+  unfold binary_Decode_guards; guards_to_prop <;> guards_done
+theorem hexToBytes_iff (l d : Int) : (hexToBytes_Decode_guards l d 0 0).any id = true ↔ (l < 0 ∨ d < l) := by
+  unfold hexToBytes_Decode_guards; guards_to_prop <;> guards_done
+theorem ascii_len_iff (l d : Int) : (ascii_Decode_guards l d 0 0).any id = true ↔ (l < 0 ∨ d < l) := by
+  unfold ascii_Decode_guards; guards_to_prop <;> guards_done
+theorem ascii_byte_iff (r : Nat) : (ascii_Decode_guards 0 0 0 r).any id = true ↔ r > 127 := by
+  unfold ascii_Decode_guards; guards_to_prop <;> guards_done
+theorem ascii_enc_byte_iff (r : Nat) : (ascii_Encode_guards r).any id = true ↔ r > 127 := by
+  unfold ascii_Encode_guards; guards_to_prop <;> guards_done
+theorem bcd_iff (l d n : Int) : (bcd_Decode_guards l d n 0).any id = true ↔ (l < 0 ∨ d < l / 2 + l % 2 ∨ n ≠ 2 * (l / 2 + l % 2)) := by
+  unfold bcd_Decode_guards; guards_to_prop <;> guards_done
+theorem lbcd_iff (l d n : Int) : (lbcd_Decode_guards l d n 0).any id = true ↔ (l < 0 ∨ d < l / 2 + l % 2 ∨ n ≠ 2 * (l / 2 + l % 2)) := by
+  unfold lbcd_Decode_guards; guards_to_prop <;> guards_done
+theorem bytesToHex_iff (l d : Int) : (bytesToHex_Decode_guards l d 0 0).any id = true ↔ (l < 0 ∨ l > d / 2) := by
+  unfold bytesToHex_Decode_guards; guards_to_prop <;> guards_done
+
 /-- `ebcdicEncoder.Decode` -/
 theorem ebcdic_decode_guarded (data : Bytes) (length : Int) :
     decode .ebcdic data length =
       if (ebcdic_Decode_guards length data.length 0 0).any id then .err
       else .ok ((data.take length.toNat).map (tbl Gen.ebcdicToAscii), length.toNat) :=
   decode_two .ebcdic (by decide) data length ebcdic_Decode_guards
-    (fun n => (data.take n).map (tbl Gen.ebcdicToAscii)) (fun _ => rfl) (fun _ _ => Or.inl rfl)
+    (fun n => (data.take n).map (tbl Gen.ebcdicToAscii)) (fun _ => rfl) ebcdic_iff
 
 /-- `ebcdic1047Encoder.Decode` (the x/text decoder never fails on bytes) -/
 theorem ebcdic1047_decode_guarded (data : Bytes) (length : Int) :
@@ -58,7 +77,7 @@ theorem ebcdic1047_decode_guarded (data : Bytes) (length : Int) :
       if (ebcdic1047_Decode_guards length data.length 0 0).any id then .err
       else .ok (cp1047DecodeBytes (data.take length.toNat), length.toNat) :=
   decode_two .ebcdic1047 (by decide) data length ebcdic1047_Decode_guards
-    (fun n => cp1047DecodeBytes (data.take n)) (fun _ => rfl) (fun _ _ => Or.inl rfl)
+    (fun n => cp1047DecodeBytes (data.take n)) (fun _ => rfl) ebcdic1047_iff
 
 /-- `binaryEncoder.Decode` -/
 theorem binary_decode_guarded (data : Bytes) (length : Int) :
@@ -66,8 +85,7 @@ theorem binary_decode_guarded (data : Bytes) (length : Int) :
       if (binary_Decode_guards length data.length 0 0).any id then .err
       else .ok (data.take length.toNat, length.toNat) :=
   decode_two .binary (by decide) data length binary_Decode_guards (fun n => data.take n)
-    (fun n => by simp only [decodeNat, gt_iff_lt])
-    (fun _ _ => Or.inr rfl)
+    (fun n => by simp only [decodeNat, gt_iff_lt]) binary_iff
 
 /-- `asciiToHexEncoder.Decode` -/
 theorem hexToBytes_decode_guarded (data : Bytes) (length : Int) :
@@ -75,8 +93,7 @@ theorem hexToBytes_decode_guarded (data : Bytes) (length : Int) :
       if (hexToBytes_Decode_guards length data.length 0 0).any id then .err
       else .ok (hexEncodeUpper (data.take length.toNat), length.toNat) :=
   decode_two .hexToBytes (by decide) data length hexToBytes_Decode_guards (fun n => hexEncodeUpper (data.take n))
-    (fun n => by simp only [decodeNat, gt_iff_lt])
-    (fun _ _ => Or.inr rfl)
+    (fun n => by simp only [decodeNat, gt_iff_lt]) hexToBytes_iff
 
 /-- `asciiEncoder.Decode`: the two length conditions, then the per-byte condition of its loop
 (`r > 127`) over the bytes it reads -/
@@ -87,10 +104,10 @@ theorem ascii_decode_guarded (data : Bytes) (length : Int) :
       then .err else .ok (data.take length.toNat, length.toNat) := by
   have hr : ∀ r : Byte, (ascii_Decode_guards 0 0 0 r.toNat).any id = decide (r.toNat > 127) := by
     intro r
-    simp only [ascii_Decode_guards, List.any_cons, List.any_nil, id, Bool.or_false]
-    have : ¬ ((0 : Int) < 0) := by omega
-    simp [this]
-    omega
+    by_cases h : r.toNat > 127
+    · rw [(ascii_byte_iff r.toNat).mpr h]; simp [h]
+    · have : ¬ ((ascii_Decode_guards 0 0 0 r.toNat).any id = true) := fun x => h ((ascii_byte_iff r.toNat).mp x)
+      simp [h, this]
   have hok : ∀ bs : Bytes, asciiOK bs = !(bs.any (fun r => decide (r.toNat > 127))) := by
     intro bs
     induction bs with
@@ -104,21 +121,18 @@ theorem ascii_decode_guarded (data : Bytes) (length : Int) :
       · have : b.toNat > 127 := by omega
         simp [hb, this]
   simp only [hr]
-  have hg : ∀ l d : Int, (ascii_Decode_guards l d 0 0).any id = true ↔ (l < 0 ∨ d < l) := by
-    intro l d
-    simp only [ascii_Decode_guards, List.any_cons, List.any_nil, id, Bool.or_false, Bool.or_eq_true, decide_eq_true_eq]
-    omega
+  have hg := ascii_len_iff length data.length
   by_cases hneg : length < 0
   · rw [decode_neg .ascii (by decide) data length hneg]
-    have := (hg length data.length).mpr (Or.inl hneg)
+    have := hg.mpr (Or.inl hneg)
     simp [this]
   · rw [decode_nonneg .ascii data length hneg]
     simp only [decodeNat, hok]
     by_cases hl : data.length < length.toNat
-    · have := (hg length data.length).mpr (Or.inr (by omega))
+    · have := hg.mpr (Or.inr (by omega))
       simp [hl, this]
     · have : ¬ ((ascii_Decode_guards length data.length 0 0).any id = true) := fun h => by
-        rcases (hg length data.length).mp h with x | x <;> omega
+        rcases hg.mp h with x | x <;> omega
       simp only [hl, if_false]
       cases hb : (data.take length.toNat).any (fun r => decide (r.toNat > 127)) <;> simp [this, hb]
 
@@ -130,11 +144,11 @@ theorem ascii_encode_guarded (data : Bytes) :
   | cons b bs ih =>
     simp only [asciiOK, List.all_cons, List.any_cons] at ih ⊢
     rw [ih]
-    simp only [ascii_Encode_guards, List.any_cons, List.any_nil, id, Bool.or_false]
     by_cases hb : b.toNat ≤ 127
-    · have : ¬ ((b.toNat : Int) > 127) := by omega
+    · have : ¬ ((ascii_Encode_guards b.toNat).any id = true) := fun x => by
+        have := (ascii_enc_byte_iff b.toNat).mp x; omega
       simp [hb, this]
-    · have : ((b.toNat : Int) > 127) := by omega
+    · have : (ascii_Encode_guards b.toNat).any id = true := (ascii_enc_byte_iff b.toNat).mpr (by omega)
       simp [hb, this]
 
 /-- `bcdEncoder.Decode` when the BCD digits decode without a filler nibble (`n = decodedLen`) -/
@@ -143,14 +157,12 @@ theorem bcd_decode_guarded (data : Bytes) (n : Nat) (ds : Bytes)
     decode .bcd data n =
       if (bcd_Decode_guards n data.length (2 * ((n / 2 + n % 2 : Nat) : Int)) 0).any id then .err
       else .ok (ds.drop (2 * (n / 2 + n % 2) - n), n / 2 + n % 2) := by
-  have h0 : ¬ ((n : Int) < 0) := by omega
-  have hr : ((n : Int) / 2 + (n : Int) % 2) = ((n / 2 + n % 2 : Nat) : Int) := by omega
-  simp only [decode_natCast, decodeNat, bcd_Decode_guards, List.any_cons, List.any_nil, id, Bool.or_false,
-    Bool.or_eq_true, decide_eq_true_eq, h0, false_or, hr, ne_eq, not_true_eq_false, or_false]
+  have hg := bcd_iff n data.length (2 * ((n / 2 + n % 2 : Nat) : Int))
+  simp only [decode_natCast, decodeNat]
   by_cases hl : data.length < n / 2 + n % 2
-  · have : ((data.length : Int) < ((n / 2 + n % 2 : Nat) : Int)) := by omega
-    rw [if_pos hl, if_pos this]
-  · have : ¬ ((data.length : Int) < ((n / 2 + n % 2 : Nat) : Int)) := by omega
+  · rw [if_pos hl, if_pos (hg.mpr (by omega))]
+  · have : ¬ ((bcd_Decode_guards n data.length (2 * ((n / 2 + n % 2 : Nat) : Int)) 0).any id = true) := fun h => by
+      have := hg.mp h; omega
     rw [if_neg hl, if_neg this, hu]
 
 /-- `lBCDEncoder.Decode`, likewise -/
@@ -159,14 +171,12 @@ theorem lbcd_decode_guarded (data : Bytes) (n : Nat) (ds : Bytes)
     decode .lbcd data n =
       if (lbcd_Decode_guards n data.length (2 * ((n / 2 + n % 2 : Nat) : Int)) 0).any id then .err
       else .ok (ds.take n, n / 2 + n % 2) := by
-  have h0 : ¬ ((n : Int) < 0) := by omega
-  have hr : ((n : Int) / 2 + (n : Int) % 2) = ((n / 2 + n % 2 : Nat) : Int) := by omega
-  simp only [decode_natCast, decodeNat, lbcd_Decode_guards, List.any_cons, List.any_nil, id, Bool.or_false,
-    Bool.or_eq_true, decide_eq_true_eq, h0, false_or, hr, ne_eq, not_true_eq_false, or_false]
+  have hg := lbcd_iff n data.length (2 * ((n / 2 + n % 2 : Nat) : Int))
+  simp only [decode_natCast, decodeNat]
   by_cases hl : data.length < n / 2 + n % 2
-  · have : ((data.length : Int) < ((n / 2 + n % 2 : Nat) : Int)) := by omega
-    rw [if_pos hl, if_pos this]
-  · have : ¬ ((data.length : Int) < ((n / 2 + n % 2 : Nat) : Int)) := by omega
+  · rw [if_pos hl, if_pos (hg.mpr (by omega))]
+  · have : ¬ ((lbcd_Decode_guards n data.length (2 * ((n / 2 + n % 2 : Nat) : Int)) 0).any id = true) := fun h => by
+      have := hg.mp h; omega
     rw [if_neg hl, if_neg this, hu]
 
 /-- every BCD / LBCD / hex decoder rejects a negative length (first condition of the source) -/
@@ -175,7 +185,8 @@ theorem negative_length_rejected (k : Nat) (d : Int) :
     (bytesToHex_Decode_guards (Int.negSucc k) d 0 0).any id = true ∧
     decode .bcd [] (Int.negSucc k) = .err ∧ decode .lbcd [] (Int.negSucc k) = .err ∧
     decode .bytesToHex [] (Int.negSucc k) = .err := by
-  simp [bcd_Decode_guards, lbcd_Decode_guards, bytesToHex_Decode_guards, negSucc_lt, decode]
+  refine ⟨(bcd_iff _ _ _).mpr (Or.inl (negSucc_lt k)), (lbcd_iff _ _ _).mpr (Or.inl (negSucc_lt k)),
+    (bytesToHex_iff _ _).mpr (Or.inl (negSucc_lt k)), ?_, ?_, ?_⟩ <;> simp [decode]
 
 /-- `hexToASCIIEncoder.Decode`: `length > len(data)/2` -/
 theorem bytesToHex_decode_guarded (data : Bytes) (n : Nat) :
@@ -184,13 +195,13 @@ theorem bytesToHex_decode_guarded (data : Bytes) (n : Nat) :
       else match hexDecode (data.take (2 * n)) with
         | none => .err
         | some bs => .ok (bs, 2 * n) := by
-  have h0 : ¬ ((n : Int) < 0) := by omega
-  have hc : ((n : Int) > (data.length : Int) / 2) ↔ n > data.length / 2 := by omega
-  simp only [decode_natCast, decodeNat, bytesToHex_Decode_guards, List.any_cons, List.any_nil, id, Bool.or_false,
-    Bool.or_eq_true, decide_eq_true_eq, h0, false_or, hc]
+  have hg := bytesToHex_iff n data.length
+  simp only [decode_natCast, decodeNat]
   by_cases h : n > data.length / 2
-  · rw [if_pos h, if_pos h]
-  · rw [if_neg h, if_neg h]
+  · rw [if_pos h, if_pos (hg.mpr (by omega))]
+  · have : ¬ ((bytesToHex_Decode_guards n data.length 0 0).any id = true) := fun x => by
+      have := hg.mp x; omega
+    rw [if_neg h, if_neg this]
     cases hexDecode (data.take (2 * n)) <;> rfl
 
 /-! non-vacuity -/
